@@ -1090,7 +1090,12 @@ func (d *db) serializeTx(ctx context.Context, tx *store.Tx, spec *schema.Entries
 	}
 
 	for _, e := range tx.Entries() {
-		switch e.Key()[0] {
+		eKey := e.Key()
+		if len(eKey) == 0 {
+			return nil, fmt.Errorf("%w: empty key", store.ErrCorruptedData)
+		}
+
+		switch eKey[0] {
 		case SetKeyPrefix:
 			{
 				if spec.KvEntriesSpec == nil || spec.KvEntriesSpec.Action == schema.EntryTypeAction_EXCLUDE {
@@ -1162,7 +1167,19 @@ func (d *db) serializeTx(ctx context.Context, tx *store.Tx, spec *schema.Entries
 				// zKey = [1+setLenLen+set+scoreLen+keyLenLen+1+key+txIDLen]
 				zKey := e.Key()
 
-				setLen := int(binary.BigEndian.Uint64(zKey[1:]))
+				// fixed-size parts, including the prefix byte of the referenced key
+				const minZKeyLen = 1 + setLenLen + scoreLen + keyLenLen + 1 + txIDLen
+
+				if len(zKey) < minZKeyLen {
+					return nil, fmt.Errorf("%w: malformed sorted set key", store.ErrCorruptedData)
+				}
+
+				encSetLen := binary.BigEndian.Uint64(zKey[1:])
+				if encSetLen > uint64(len(zKey)-minZKeyLen) {
+					return nil, fmt.Errorf("%w: malformed sorted set key", store.ErrCorruptedData)
+				}
+
+				setLen := int(encSetLen)
 				set := make([]byte, setLen)
 				copy(set, zKey[1+setLenLen:])
 
